@@ -248,3 +248,79 @@ Qed.
 Theorem normalised_samples_same_factor c dz (row : list oq) :
   ointegral dz (oscale c row) == ointegral dz row / c.
 Proof. apply map2_oscale_integral. Qed.
+
+From Coq Require Import Lia.
+
+(* ------------------------------------------------ histories of public calls *)
+Theorem run_calls_erase_observers h s : run_calls h s = run_calls (filter is_set h) s.
+Proof.
+  unfold run_calls. revert s. induction h as [|c h IH]; intro s; simpl; [reflexivity|].
+  destruct c as [o k|k i j v]; simpl; apply IH.
+Qed.
+
+Theorem run_calls_observers_only h s : observers_only h = true -> run_calls h s = s.
+Proof.
+  unfold run_calls, observers_only. revert s. induction h as [|c h IH]; intros s H; simpl in *; [reflexivity|].
+  apply andb_prop in H. destruct H as [Hc Hh]. destruct c as [o k|k i j v]; simpl in *; [apply IH; exact Hh|discriminate].
+Qed.
+
+Theorem run_calls_app h1 h2 s : run_calls (h1 ++ h2) s = run_calls h2 (run_calls h1 s).
+Proof. unfold run_calls. apply fold_left_app. Qed.
+
+(* CorrFunc.sample() after any history = CorrFunc.sample() after its set_patch_pair calls alone;
+   after read-only calls alone = CorrFunc.sample() of the containers as constructed *)
+Theorem sample_after_history N h s :
+  cfs_data (run_calls h s) = cfs_data (run_calls (filter is_set h) s)
+  /\ cfs_samples N (run_calls h s) = cfs_samples N (run_calls (filter is_set h) s).
+Proof. rewrite <- run_calls_erase_observers. split; reflexivity. Qed.
+
+Theorem sample_after_observers N h s : observers_only h = true ->
+  cfs_data (run_calls h s) = cfs_data s /\ cfs_samples N (run_calls h s) = cfs_samples N s.
+Proof. intro H. rewrite (run_calls_observers_only h s H). split; reflexivity. Qed.
+
+(* set_patch_pair stores v[b] at [b, i, j] and nothing else *)
+Lemma nth_set_nth_eq {A} k (x d : A) l : (k < length l)%nat -> nth k (set_nth k x l) d = x.
+Proof.
+  revert k. induction l as [|a l IH]; intros k H; simpl in *; [lia|].
+  destruct k; simpl; [reflexivity|]. apply IH. lia.
+Qed.
+Lemma nth_set_nth_neq {A} k k' (x d : A) l : k <> k' -> nth k' (set_nth k x l) d = nth k' l d.
+Proof.
+  revert k k'. induction l as [|a l IH]; intros k k' H; simpl; [destruct k; reflexivity|].
+  destruct k, k'; simpl; try reflexivity; [congruence|]. apply IH. congruence.
+Qed.
+Lemma length_set_nth {A} k (x : A) l : length (set_nth k x l) = length l.
+Proof. revert k. induction l as [|a l IH]; intro k; simpl; [destruct k; reflexivity|]. destruct k; simpl; [reflexivity|]. f_equal. apply IH. Qed.
+
+Definition entry (M : mat) (i j : nat) : Q := nth j (nth i M []) 0.
+Theorem mat_set_same i j x M : (i < length M)%nat -> (j < length (nth i M []))%nat -> entry (mat_set i j x M) i j = x.
+Proof. intros Hi Hj. unfold entry, mat_set. rewrite nth_set_nth_eq by exact Hi. apply nth_set_nth_eq. exact Hj. Qed.
+Theorem mat_set_other i j x M i' j' : (i', j') <> (i, j) -> entry (mat_set i j x M) i' j' = entry M i' j'.
+Proof.
+  intro H. unfold entry, mat_set. destruct (PeanoNat.Nat.eq_dec i i') as [E|E].
+  - subst i'. destruct (PeanoNat.Nat.lt_ge_cases i (length M)) as [Hi|Hi].
+    + rewrite nth_set_nth_eq by exact Hi. apply nth_set_nth_neq. intro E. apply H. subst. reflexivity.
+    + assert (Hs : forall (l : list (list Q)) k y, (length l <= k)%nat -> set_nth k y l = l).
+      { induction l as [|a l IH]; intros k y Hk; simpl; [destruct k; reflexivity|].
+        destruct k; simpl in *; [lia|]. f_equal. apply IH. lia. }
+      rewrite Hs by exact Hi. reflexivity.
+  - rewrite nth_set_nth_neq by exact E. reflexivity.
+Qed.
+
+(* the history quantifier is not vacuous: an implementation whose get_array normalises the stored
+   counts in place agrees with the code on every freshly constructed CorrFunc (empty history),
+   yet after one read-only call its sample() is a different number *)
+Theorem inplace_fresh_agrees s : run_calls_inplace [] s = run_calls [] s.
+Proof. reflexivity. Qed.
+
+Definition ex_pc (c : Q) : pc := {| pc_auto := false; pc_counts := [[[c; 1]; [2; 3]]]; pc_w1 := [[1; 2]]; pc_w2 := [[2; 2]] |}.
+Definition ex_cfs : cfs := {| cf_dd := ex_pc 6; cf_dr := Some (ex_pc 2); cf_rd := None; cf_rr := None |}.
+Definition res_values (l : list res) : list Q := map (fun r => Qred (fst (fst r))) l.
+
+Theorem inplace_history_refuted : exists s h, observers_only h = true
+  /\ res_values (cfs_data (run_calls h s)) = res_values (cfs_data s)
+  /\ res_values (cfs_data (run_calls_inplace h s)) <> res_values (cfs_data s).
+Proof.
+  exists ex_cfs, [H_obs 0 K_dd]. split; [reflexivity|]. split; [reflexivity|].
+  vm_compute. discriminate.
+Qed.
